@@ -30,22 +30,24 @@ import (
 )
 
 type c07Setup struct {
-	entityIDSet bool
-	spKey       string // rsa_b rsa_c ec_256
-	cert        bool   // sp.Certificate set (=> metadata advertises an encryption key)
-	binding     string // redirect | post
-	signed      bool
-	idpMethod   string
-	idpSigner   bool
-	initiated   bool
-	spInterm    bool   // sp.Intermediates set
-	xmlEntry    bool   // SP entry point ParseXMLResponse instead of ParseResponse
-	certWS      string // how certificate texts are laid out in both metadata documents ("" = single line)
+	entityIDSet   bool
+	spKey         string // rsa_b rsa_c ec_256
+	cert          bool   // sp.Certificate set (=> metadata advertises an encryption key)
+	binding       string // redirect | post
+	signed        bool
+	idpMethod     string
+	idpSigner     bool
+	idpSignerKind string // "rsa" | "opaque-rsa" | "ecdsa" (with idpSigner)
+	idsShape      string // where the answered request id stands among the outstanding ones
+	initiated     bool
+	spInterm      bool   // sp.Intermediates set
+	xmlEntry      bool   // SP entry point ParseXMLResponse instead of ParseResponse
+	certWS        string // how certificate texts are laid out in both metadata documents ("" = single line)
 }
 
 func (s c07Setup) key() map[string]string {
 	return map[string]string{"entity_id_set": fmt.Sprint(s.entityIDSet), "sp_key": s.spKey, "encryption": fmt.Sprint(s.cert), "request_binding": s.binding,
-		"signed_request": fmt.Sprint(s.signed), "idp_method": s.idpMethod, "idp_signer": fmt.Sprint(s.idpSigner), "idp_initiated": fmt.Sprint(s.initiated), "cert_text_layout": s.certWS, "sp_intermediates": fmt.Sprint(s.spInterm), "sp_entry": map[bool]string{false: "ParseResponse", true: "ParseXMLResponse"}[s.xmlEntry]}
+		"signed_request": fmt.Sprint(s.signed), "idp_method": s.idpMethod, "idp_signer": fmt.Sprint(s.idpSigner) + ":" + s.idpSignerKind, "outstanding_ids": s.idsShape, "idp_initiated": fmt.Sprint(s.initiated), "cert_text_layout": s.certWS, "sp_intermediates": fmt.Sprint(s.spInterm), "sp_entry": map[bool]string{false: "ParseResponse", true: "ParseXMLResponse"}[s.xmlEntry]}
 }
 
 func xmlReparse(ed *saml.EntityDescriptor) (*saml.EntityDescriptor, error) {
@@ -112,7 +114,11 @@ func runPipeline(setup c07Setup, sess mSession, now time.Time, relay string) (re
 	}()
 	cfg := mCfg{SSOURL: "https://idp.example.com/saml/sso", Entity: "https://idp.example.com/saml/metadata", Delay: 90 * time.Second, Skew: 180 * time.Second, Key: 1, Method: setup.idpMethod}
 	if setup.idpSigner {
-		cfg.Signer = iptr(2)
+		cfg.Signer, cfg.SignerKind = iptr(2), setup.idpSignerKind
+		if setup.idpSignerKind == "ecdsa" {
+			cfg.Signer = iptr(ecSignerID)
+			cfg.Method = "http://www.w3.org/2001/04/xmldsig-more#ecdsa-sha256"
+		}
 	}
 	withGlobals(cfg, now, func() {
 		idp := newIDP(cfg, nil, sess.toSAML())
@@ -179,7 +185,26 @@ func runPipeline(setup c07Setup, sess mSession, now time.Time, relay string) (re
 				res.stage, res.detail = "sp-make-request", err.Error()
 				return
 			}
-			ids = []string{req.ID}
+			// the SP may have several requests outstanding (two tabs, a retry); the answered one
+			// can stand anywhere in the list handed to ParseResponse
+			switch setup.idsShape {
+			case "first-of-3":
+				ids = []string{req.ID, "id-other-1", "id-other-2"}
+			case "middle-of-3":
+				ids = []string{"id-other-1", req.ID, "id-other-2"}
+			case "last-of-3":
+				ids = []string{"id-other-1", "id-other-2", req.ID}
+			case "first-of-2":
+				ids = []string{req.ID, "id-other-1"}
+			case "last-of-2":
+				ids = []string{"id-other-1", req.ID}
+			case "twice":
+				ids = []string{req.ID, "id-other-1", req.ID}
+			case "first-then-prefix":
+				ids = []string{req.ID, req.ID[:len(req.ID)-1], req.ID + "0"}
+			default:
+				ids = []string{req.ID}
+			}
 			res.reqACSURL, res.reqIndex = req.AssertionConsumerServiceURL, req.AssertionConsumerServiceIndex
 			var hr *http.Request
 			if setup.binding == "post" {
@@ -322,6 +347,10 @@ func genSetup(r *rand.Rand) c07Setup {
 		s.certWS = pick(r, c07Layouts)
 	}
 	s.spInterm, s.xmlEntry = r.Intn(5) == 0, r.Intn(3) == 0
+	s.idsShape = pick(r, []string{"single", "single", "first-of-3", "middle-of-3", "last-of-3", "first-of-2", "last-of-2", "twice", "first-then-prefix"})
+	if s.idpSigner {
+		s.idpSignerKind = pick(r, []string{"rsa", "opaque-rsa", "opaque-rsa", "ecdsa"})
+	}
 	// an ECDSA SP with a certificate publishes it for signing only (fix F18) and is answered unencrypted
 	s.signed = s.cert && r.Intn(2) == 0
 	return s
@@ -371,6 +400,9 @@ func c07Pipeline(c *Ctx) {
 			setup.spKey, setup.cert, setup.signed = "ec_256", true, i%2 == 0
 		case i >= 30 && i < 30+len(c07Layouts): // every certificate text layout, encrypted
 			setup = c07Setup{entityIDSet: i%2 == 0, spKey: pick(c.Rng, []string{"rsa_b", "rsa_c"}), cert: true, binding: "redirect", signed: i%3 == 0, certWS: c07Layouts[i-30]}
+		case i >= 40 && i < 54: // several outstanding request ids, plaintext and encrypted
+			shapes := []string{"first-of-3", "middle-of-3", "last-of-3", "first-of-2", "last-of-2", "twice", "first-then-prefix"}
+			setup = c07Setup{entityIDSet: i%2 == 0, spKey: "rsa_b", cert: i >= 47, binding: "post", idsShape: shapes[(i-40)%7], xmlEntry: i%3 == 0}
 		case i >= 24 && i < 30: // "]]>" in each string that travels as an XML attribute (known finding K4)
 			sess = mSession{Create: now, NameID: "alice", UserName: "u"}
 			at := mAttribute{Friendly: "f", Name: "n", Format: "urn:x", Values: []mAttrValue{{Type: "xs:string", Value: "v]]>"}}}
